@@ -103,6 +103,11 @@ func VerifFault() {
 	// reopen the disk as it is now
 	img := s.disk.image()
 	verifAssert(s.f.Close() == nil, "File.Close succeeds")
+	if verifKnown("D15", cerr != nil && onlyFinalSync) {
+		// (from here on: the header of the attempt is on disk, memory was rolled back, its pages were truncated
+		// away or re-used; whatever the reopen shows - or that it fails - is this known finding)
+		verifLog("the only failure was the final sync of Commit: the attempt's header is on disk")
+	}
 	disk2 := memFileFrom(img, cap(s.disk.data))
 	f2, oerr := openWith(disk2, cfg.options())
 	verifAssert(oerr == nil, "reopening succeeds")
